@@ -24,7 +24,7 @@ pub fn predicate(name: &str, case: &Value, fail: &Fail) -> bool {
         "c11_deep_tree_emit" => {
             // unoptimised frames are larger: there the recursion runs out of stack from ~16 800 levels
             let floor = if case["profile"].as_str() == Some("debug") { 12_000 } else { 20_000 };
-            fail.category == "abort" && case["api"].as_str() == Some("emit") && case["depth"].as_u64().unwrap_or(0) >= floor
+            fail.category == "abort" && matches!(case["api"].as_str(), Some("emit" | "emit_ml")) && case["depth"].as_u64().unwrap_or(0) >= floor
         }
         // F25 (C06): a tab used as the indentation of a block collection whose parent is the
         // document or a collection at indentation 0 is accepted (the scanner only polices tabs at
@@ -34,7 +34,9 @@ pub fn predicate(name: &str, case: &Value, fail: &Fail) -> bool {
         // enclosing block is accepted when the continuation line starts with anything but a plain
         // scalar
         "c06_flow_continuation_nonplain" => {
-            fail.category.starts_with("accepted:D06-flow-continuation-not-deeper-than-block:flow-cont:") && !fail.category.ends_with(":plain")
+            // only when a plain scalar was scanned inside the flow collection before the line in
+            // question: scanning it drops the one-column indent that polices the continuation
+            fail.category.starts_with("accepted:D06-flow-continuation-not-deeper-than-block:flow-cont:") && fail.category.ends_with(":after-plain-scalar")
         }
         _ => false,
     }
